@@ -15,7 +15,7 @@ RULE = (
     "sum/difference/negation of its operands' stored angles; every produced SE3 quaternion is unit within 4*eps*(N+2) after N operations; "
     "normalize() gives unit norm, w >= 0 and the same rotation. Non-trivial = chain length >= 100, |theta| > 100, or an optimizer run >= 10 iterations."
 )
-BUDGET = {"quick": 16 * 300, "thorough": 16 * 8000}
+BUDGET = {"quick": 16 * 500, "thorough": 16 * 8000}
 TOLERANCES = {
     "SE2 congruence": "8*eps*(|theta_exact| + pi) per operation, exact rational distance",
     "SE2 range": "-pi <= theta <= pi (float pi)",
@@ -57,9 +57,11 @@ def strategy_(g):
         return {"shape": shape, "thetas": [g.angle(big=True) for _ in range(g.integer(1, 20))], "xy": g.vec(2)}
     if shape == "normalize":
         q = g.unit_quat()
-        return {"shape": shape, "q": q, "scale": 10.0 ** rnd.uniform(-3, 3), "t": g.vec(3)}
+        sc = g.choice(["wide", "wide", "one", "near-one"])
+        scale = 10.0 ** rnd.uniform(-3, 3) if sc == "wide" else 1.0 if sc == "one" else 1.0 + rnd.choice([1.0, -1.0]) * 10.0 ** rnd.uniform(-15, -3)
+        return {"shape": shape, "q": q, "scale": scale, "t": g.vec(3)}
     regime = g.choice(["near", "wild"])
-    kw = dict(bases=("se3", "se3", "se2"), n_pose=(2, 8), n_lm=(0, 3), n_loops=(0, 3), conds=(1.0, 1e2), features=("parallel", "reversed", "permute", "multifixed"))
+    kw = dict(bases=("se3", "se3", "se2"), n_pose=(2, 8), n_lm=(0, 3), n_loops=(0, 3), conds=(1.0, 1e2), features=("parallel", "reversed", "permute", "multifixed", "quat-signs"))
     kw.update(dict(noise=(0.05, 0.05), pert=(0.3, 0.3)) if regime == "near" else dict(noise=(0.5, 0.5), pert=(3.0, 3.0)))
     case = GG.gen(g, **kw)
     case["shape"] = shape
@@ -204,6 +206,8 @@ def _check_normalize(case, ctx):
     ctx.event("normalize")
     q = [x * case["scale"] for x in case["q"]]
     ctx.nontrivial(case["q"][3] < 0 or not (0.5 < case["scale"] < 2))
+    if abs(case["scale"] - 1.0) < 1e-3:
+        ctx.event("normalize:already-(nearly)-unit")
     p = gs.PoseSE3(case["t"], q)
     want_R = R.rotmat(q)
     t0 = gs.bits(np.asarray(p)[:3])
